@@ -189,6 +189,7 @@ type Sidecar struct {
 	CaseIndex   map[string]interface{} `json:"case_index"` // case number -> printable description (for replay files)
 	Extra       map[string]interface{} `json:"extra,omitempty"`
 	distinct    map[string]bool
+	perSig      map[string]int
 }
 
 func NewSidecar(driver string, seed uint64, rule string) *Sidecar {
@@ -212,10 +213,16 @@ func (s *Sidecar) Case(idx int, canonical string, nontrivial bool, desc interfac
 	s.CaseIndex[strconv.Itoa(idx)] = desc
 }
 
+// Hit records an oracle hit. At most 20 hits are kept per signature (and 4000 in all), so that a frequent
+// known finding can never crowd out a hit with another signature later in the run; the histogram counts all of them.
 func (s *Sidecar) Hit(sig, msg string, c interface{}) {
-	if len(s.OracleHits) < 200 {
+	if s.perSig == nil {
+		s.perSig = map[string]int{}
+	}
+	if s.perSig[sig] < 20 && len(s.OracleHits) < 4000 {
 		s.OracleHits = append(s.OracleHits, OracleHit{Signature: sig, Message: msg, Case: c})
 	}
+	s.perSig[sig]++
 	s.Count("oracle_hit:" + sig)
 }
 
